@@ -1218,12 +1218,30 @@ func bareFuncName(fn *Func) string {
 
 // safeAtom: guards that never narrow what is emitted for a schema-known item — nil
 // checks, error checks, comma-ok of type assertions, position tests.
+// rowP5: the nil analysis of the current run (set by runRows): a nil test of something that
+// analysis proves non-nil at the test is dead code, not a filter.
+var rowP5 *p5
+
 func safeAtom(fn *Func, a *Atom) bool {
 	info := fn.Info()
 	if a.E == nil {
 		return true
 	}
 	e := ast.Unparen(a.E)
+	if be, ok := e.(*ast.BinaryExpr); ok && rowP5 != nil && a.E.Pos().IsValid() && (isNilIdent(info, be.X) || isNilIdent(info, be.Y)) {
+		other := be.X
+		if isNilIdent(info, be.X) {
+			other = be.Y
+		}
+		if _, isId := ast.Unparen(other).(*ast.Ident); isId && fn.BlockOf(a.E) != nil {
+			if path := fn.Canon(other); path != "" && rowP5.nullableReason(fn, other, 0) != "" && rowP5.pathNonNil(fn, other, path, a.E, 0) {
+				if os.Getenv("HCLVERIF_ROWDEBUG") != "" {
+					fmt.Printf("ROWDEBUG dead nil test %s at %s (%s)\n", exprStr(a.E), fn.Prog.Pos(a.E), rowP5.nullableReason(fn, other, 0))
+				}
+				return true
+			}
+		}
+	}
 	// the condition of a counting loop bounds the iteration; it is not a data filter
 	for c := ast.Node(a.E); c != nil; c = fn.Prog.parents[c] {
 		par := fn.Prog.parents[c]
@@ -1304,6 +1322,7 @@ func runRows(prop string) func(p *Prog, r *Report) {
 			nilWithFalse: map[*types.Func]map[int]bool{}, nilWithErr: map[*types.Func]map[int]bool{}, mayNil: map[*types.Func]map[int]string{},
 			tolerant: map[*types.Func]bool{}, tolDone: map[*types.Func]bool{}}
 		p5c.computeSummaries()
+		rowP5 = p5c
 		nRows := 0
 		for _, rw := range e1Rows {
 			if rw.prop != prop && !containsStr(rw.also, prop) {
